@@ -55,3 +55,7 @@ Proof. intros et cur. unfold gen_commit_term_ok. intros H. apply N.eqb_eq. exact
    do not start the log): what LogMatch.entries_for_ok and the whole replication argument rest on *)
 Lemma gen_entries_with_known_prev : gen_entries_need_prev = true.
 Proof. reflexivity. Qed.
+
+(* finalize_to accepts a height only if the node has committed it (compaction then only drops committed entries) *)
+Lemma gen_finalize_within_commit : forall h c len, gen_finalize_ok h c len = true -> h <= c.
+Proof. intros h c len. unfold gen_finalize_ok. intros H. lia. Qed.
